@@ -21,7 +21,17 @@ namespace nmtools::view
     {
         auto src_shape = shape<true>(array);
         auto dst_shape = index::shape_expand_dims(src_shape,axis);
-        return view::reshape(array,dst_shape);
+        if constexpr (meta::is_maybe_v<decltype(dst_shape)>) {
+            // invalid axis: Nothing (reshape to a run-time shape yields a maybe type already)
+            using result_t = decltype(view::reshape(array,unwrap(dst_shape)));
+            using return_t = meta::conditional_t<meta::is_maybe_v<result_t>,result_t,nmtools_maybe<result_t>>;
+            return (has_value(dst_shape)
+                ? return_t{view::reshape(array,unwrap(dst_shape))}
+                : return_t{meta::Nothing}
+            );
+        } else {
+            return view::reshape(array,dst_shape);
+        }
     } // expand_dims
 
 } // namespace nmtools::view
